@@ -120,9 +120,10 @@ impl Agg {
         }
         for v in j.violations {
             // keep the smallest scenario per distinct (clause, signature)
-            let key = (v.clause.clone(), v.signature.clone());
+            // signatures are "<stable part> | <volatile details>"
+            let key = (v.clause.clone(), v.signature.split(" | ").next().unwrap_or("").to_string());
             *self.violation_counts.entry(key.clone()).or_insert(0) += 1;
-            match self.violations.iter_mut().find(|(_, w)| w.clause == key.0 && w.signature == key.1) {
+            match self.violations.iter_mut().find(|(_, w)| w.clause == key.0 && w.signature.split(" | ").next().unwrap_or("") == key.1) {
                 Some(slot) => {
                     if sc.script.len() < slot.0.script.len() {
                         *slot = (sc.clone(), v);
@@ -425,6 +426,10 @@ pub fn run_check(def: &PropDef, tier: Tier, seed: u64, max_items: Option<u64>) -
     }
     let mut reported = 0;
     let total_new = new_groups.len();
+    if let Ok(only) = std::env::var("VERIF_ONLY_SIG") {
+        // debugging aid: minimise only the violations whose signature contains this text
+        new_groups.retain(|(_, v)| v.signature.contains(&only));
+    }
     for (sc, v) in new_groups.into_iter().take(8) {
         println!(
             "violation found: {} clause={} signature={} :: {}",
